@@ -51,6 +51,8 @@ namespace
     bool one_item_per_value = false;      // group points of equal value into one item instead of one item per point
     bool default_last = false;            // the value without points is the last item instead of the first
     double lon_shift = 0;                 // spherical: added to every longitude of the file (179: polygon across the date line, 355: longitudes up to 359)
+    double scale = 1;                     // multiplies the lattice unit (0.025: a 2-unit square is 0.05 degrees / 5 km wide)
+    double x0 = 0, y0 = 0;                // origin of the lattice in file units (scaled families sit away from the axes)
   };
   const double CORNER_DEFAULT = 1.2e5;
 
@@ -59,20 +61,22 @@ namespace
     std::string p = "[";
     for (size_t i = 0; i < k.pts.size(); ++i) p += (i ? "," : "") + std::string("[") + std::to_string(k.pts[i][0]) + "," + std::to_string(k.pts[i][1]) + "," + num(k.vals[i]) + "]";
     return JObj().str("polygon", POLY_NAMES[k.poly]).str("feature", FEATURES[k.feature]).boolean("spherical", k.spherical).str("surface", k.is_max ? "max depth" : "min depth")
-           .str("corner_default", k.default_mode == 0 ? "explicit value without points" : "schema default").raw("value_points_x_y_value", p + "]").boolean("affine", k.affine).boolean("value_without_points_listed_last", k.default_last).num("longitude_shift", k.lon_shift).done();
+           .str("corner_default", k.default_mode == 0 ? "explicit value without points" : "schema default").raw("value_points_x_y_value", p + "]").boolean("affine", k.affine).boolean("value_without_points_listed_last", k.default_last).num("longitude_shift", k.lon_shift).num("lattice_scale", k.scale).num("origin_x", k.x0).num("origin_y", k.y0).done();
   }
 
   double unit(bool sph) { return sph ? 1.0 : 1e5; }
+  // file coordinates of the lattice position (qx, qy)
+  double fx(const Case &k, double qx) { return k.x0 + qx * unit(k.spherical) * k.scale + k.lon_shift; }
+  double fy(const Case &k, double qy) { return k.y0 + qy * unit(k.spherical) * k.scale; }
 
   std::string depth_json(const Case &k, const std::vector<LP> &poly)
   {
-    const double s = unit(k.spherical);
     std::vector<std::string> items;
     if (k.affine)
       {
         // every node listed explicitly: corners first, then the additional points
-        for (auto &q : poly) items.push_back("[" + num(k.a + k.b*q[0] + k.c*q[1]) + ",[" + pt({q[0]*s + k.lon_shift, q[1]*s}) + "]]");
-        for (auto &q : k.pts) items.push_back("[" + num(k.a + k.b*q[0] + k.c*q[1]) + ",[" + pt({q[0]*s + k.lon_shift, q[1]*s}) + "]]");
+        for (auto &q : poly) items.push_back("[" + num(k.a + k.b*q[0] + k.c*q[1]) + ",[" + pt({fx(k, q[0]), fy(k, q[1])}) + "]]");
+        for (auto &q : k.pts) items.push_back("[" + num(k.a + k.b*q[0] + k.c*q[1]) + ",[" + pt({fx(k, q[0]), fy(k, q[1])}) + "]]");
       }
     else
       {
@@ -82,12 +86,12 @@ namespace
             for (double v : VALUES)
               {
                 std::string l;
-                for (size_t i = 0; i < k.pts.size(); ++i) if (k.vals[i] == v) l += (l.empty() ? "" : ",") + pt({k.pts[i][0]*s + k.lon_shift, k.pts[i][1]*s});
+                for (size_t i = 0; i < k.pts.size(); ++i) if (k.vals[i] == v) l += (l.empty() ? "" : ",") + pt({fx(k, k.pts[i][0]), fy(k, k.pts[i][1])});
                 if (!l.empty()) items.push_back("[" + num(v) + ",[" + l + "]]");
               }
           }
         else
-          for (size_t i = 0; i < k.pts.size(); ++i) items.push_back("[" + num(k.vals[i]) + ",[" + pt({k.pts[i][0]*s + k.lon_shift, k.pts[i][1]*s}) + "]]");
+          for (size_t i = 0; i < k.pts.size(); ++i) items.push_back("[" + num(k.vals[i]) + ",[" + pt({fx(k, k.pts[i][0]), fy(k, k.pts[i][1])}) + "]]");
         if (k.default_mode == 0 && k.default_last) items.push_back("[" + num(CORNER_DEFAULT) + "]");
       }
     return "[" + join(items) + "]";
@@ -96,9 +100,8 @@ namespace
   std::string world_text(const Case &k)
   {
     const auto &poly = POLYGONS[k.poly];
-    const double s = unit(k.spherical);
     std::vector<P2> c;
-    for (auto &q : poly) c.push_back({{q[0]*s + k.lon_shift, q[1]*s}});
+    for (auto &q : poly) c.push_back({{fx(k, q[0]), fy(k, q[1])}});
     std::string f = std::string("{\"model\":\"") + FEATURES[k.feature] + "\",\"name\":\"A\",\"coordinates\":" + pts(c) + ",";
     f += k.is_max ? "\"min depth\":0,\"max depth\":" + depth_json(k, poly) : "\"min depth\":" + depth_json(k, poly) + ",\"max depth\":6e5";
     f += ",\"composition models\":[{\"model\":\"uniform\",\"compositions\":[0]}]}";
@@ -158,11 +161,10 @@ namespace
     static const int c_probe = Ctx::counter_id("probes_bisected"), c_listed = Ctx::counter_id("listed_points_checked"), c_corner = Ctx::counter_id("unlisted_corners_checked"),
                      c_override = Ctx::counter_id("corner_overrides_checked"), c_affine = Ctx::counter_id("affine_probes_checked"), c_kernel = Ctx::counter_id("kernel_cross_checks");
     const auto &poly = POLYGONS[k.poly];
-    const double s = unit(k.spherical);
     const std::string text = world_text(k);
     // does the file list a value for a point that coincides with a polygon corner having a zero coordinate?
     bool zero_corner_listed = false;
-    for (auto &q : poly) if ((q[0] == 0 || q[1] == 0) && (k.affine || std::find(k.pts.begin(), k.pts.end(), q) != k.pts.end())) zero_corner_listed = true;
+    for (auto &q : poly) if ((fx(k, q[0]) == 0 || fy(k, q[1]) == 0) && (k.affine || std::find(k.pts.begin(), k.pts.end(), q) != k.pts.end())) zero_corner_listed = true;
     // spherical: two or more value points exactly on a diagonal through two polygon corners (collinear before, nearly collinear after the conversion to radians)
     bool diagonal_points = false;
     if (k.spherical)
@@ -188,7 +190,7 @@ namespace
     {
       std::pair<std::vector<double>,std::vector<double>> vp;
       const double dtr = k.spherical ? WorldBuilder::Consts::PI / 180.0 : 1.0;
-      for (auto &n : nodes) { vp.first.push_back(n.v); vp.second.push_back((n.p[0]*s + k.lon_shift)*dtr); vp.second.push_back(n.p[1]*s*dtr); }
+      for (auto &n : nodes) { vp.first.push_back(n.v); vp.second.push_back(fx(k, n.p[0])*dtr); vp.second.push_back(fy(k, n.p[1])*dtr); }
       try { surf = std::make_unique<WorldBuilder::Objects::Surface>(vp); }
       catch (const std::exception &) { surf.reset(); }
     }
@@ -198,7 +200,7 @@ namespace
     for (int x2 = (large ? 20 : -4); x2 <= (large ? 60 : 10); x2 += (large ? 2 : 1)) for (int y2 = (large ? 20 : -2); y2 <= (large ? 60 : 10); y2 += (large ? 2 : 1))
         {
           if (!inside_closed(poly, x2, y2)) continue;
-          const double x = 0.5 * x2 * s + k.lon_shift, y = 0.5 * y2 * s;
+          const double x = fx(k, 0.5 * x2), y = fy(k, 0.5 * y2);
           // spherical polygon edges are not exactly representable after the conversion to radians: stay off them
           bool on_edge = false;
           if (k.spherical)
@@ -238,6 +240,33 @@ namespace
                 }
             }
           if (bounded_values && !(v >= vmin - tol * vmax && v <= vmax + tol * vmax)) { fail("interpolated-depth-outside-the-range-of-nodal-values", "the interpolated depth is not between the smallest and largest nodal value", JObj().num("x", x).num("y", y).num("recovered_depth", v).num("min", vmin).num("max", vmax).done()); return; }
+          // rectangle with exactly one value point strictly inside: the four corners are cocircular and the point lies inside their circle, so the Delaunay
+          // triangulation is the fan around that point, at every scale and position; the interpolated depth is known in closed form
+          if (!k.affine && bounded_values && k.pts.size() == 1 && poly.size() == 4 && !is_corner(poly, k.pts[0]))
+            {
+              int xmin = poly[0][0], xmax = poly[0][0], ymin = poly[0][1], ymax = poly[0][1];
+              for (auto &q : poly) { xmin = std::min(xmin, q[0]); xmax = std::max(xmax, q[0]); ymin = std::min(ymin, q[1]); ymax = std::max(ymax, q[1]); }
+              const LP P = k.pts[0];
+              if (P[0] > xmin && P[0] < xmax && P[1] > ymin && P[1] < ymax)
+                {
+                  const double px = 0.5 * x2, py = 0.5 * y2, vP = nodes.back().v;
+                  bool found = false; double expect = 0;
+                  for (size_t i = 0; i < 4 && !found; ++i)
+                    {
+                      const Node &A = nodes[i], &B = nodes[(i+1)%4];
+                      const double det = (B.p[1] - P[1]) * (A.p[0] - P[0]) + (P[0] - B.p[0]) * (A.p[1] - P[1]);
+                      const double la = ((B.p[1] - P[1]) * (px - P[0]) + (P[0] - B.p[0]) * (py - P[1])) / det;
+                      const double lb = ((P[1] - A.p[1]) * (px - P[0]) + (A.p[0] - P[0]) * (py - P[1])) / det;
+                      if (la >= -1e-12 && lb >= -1e-12 && la + lb <= 1 + 1e-12) { found = true; expect = la * A.v + lb * B.v + (1 - la - lb) * vP; }
+                    }
+                  static const int c_fan = Ctx::counter_id("fan_reference_checks");
+                  if (found)
+                    {
+                      ctx.count(c_fan);
+                      if (!(std::fabs(v - expect) <= 1e-6 * std::max(1.0, std::fabs(expect)))) { fail("depth-differs-from-the-linear-interpolation-on-the-unique-delaunay-triangulation", "rectangle with one interior value point: the depth is not the linear interpolation on the fan triangulation around that point", extra(expect)); return; }
+                    }
+                }
+            }
           if (k.affine)
             {
               ctx.count(c_affine);
@@ -332,6 +361,47 @@ namespace
                   v.push_back(k);
                 }
       }
+    // scaled and displaced families: the same polygons 40 times smaller (a 2-unit square is 0.05 degrees / 5 km wide) and 4 times larger, away from the axes;
+    // at most one additional value point (two in the thorough tier), every value assignment, min and max depth
+    {
+      struct Place { bool sph; double scale, x0, y0; };
+      const std::vector<Place> places = {{true, 0.025, 10, 20}, {true, 0.025, 179.96, -45}, {false, 0.025, 3e5, -2e5}, {true, 4, 100, -10}, {false, 4, -7e5, 3e5}, {true, 0.0025, -120, 60}};
+      for (unsigned poly = 0; poly < 4; ++poly)
+        {
+          const auto cand = candidates(POLYGONS[poly]);
+          std::vector<std::vector<size_t>> subsets;
+          for (size_t i = 0; i < cand.size(); ++i) subsets.push_back({i});
+          if (th) for (size_t i = 0; i < cand.size(); ++i) for (size_t j = i+1; j < cand.size(); ++j) subsets.push_back({i, j});
+          for (auto &sub : subsets)
+            {
+              uint64_t nassign = 1;
+              for (size_t q = 0; q < sub.size(); ++q) nassign *= VALUES.size();
+              for (uint64_t a = 0; a < nassign; ++a)
+                for (auto &pl : places)
+                  {
+                    Case k;
+                    k.poly = poly; k.spherical = pl.sph; k.scale = pl.scale; k.x0 = pl.x0; k.y0 = pl.y0;
+                    uint64_t r = a;
+                    for (size_t q = 0; q < sub.size(); ++q) { k.pts.push_back(cand[sub[q]]); k.vals.push_back(VALUES[r % VALUES.size()]); r /= VALUES.size(); }
+                    k.is_max = rr % 2; k.feature = (rr / 2) % 3; k.one_item_per_value = (rr / 6) % 2; ++rr;
+                    v.push_back(k);
+                    if (th) { k.is_max = !k.is_max; v.push_back(k); }
+                  }
+            }
+          // affine data at those places
+          const double AFF2[2][3] = {{2e5, 1e4, 2e4}, {1e5, -0.5e4, 3e4}};
+          for (size_t i = 0; i < cand.size(); ++i)
+            for (int fn = 0; fn < 2; ++fn) for (auto &pl : places)
+                {
+                  if (is_corner(POLYGONS[poly], cand[i])) continue;
+                  Case k;
+                  k.poly = poly; k.affine = true; k.a = AFF2[fn][0]; k.b = AFF2[fn][1]; k.c = AFF2[fn][2]; k.is_max = rr % 2; k.feature = (rr / 2) % 3; ++rr;
+                  k.spherical = pl.sph; k.scale = pl.scale; k.x0 = pl.x0; k.y0 = pl.y0;
+                  k.pts.push_back(cand[i]); k.vals.push_back(0);
+                  v.push_back(k);
+                }
+        }
+    }
     return v;
   }
 }
@@ -348,7 +418,7 @@ int main(int argc, char **argv)
                       "documented semantics: a value without points sets every polygon corner; a value with points sets those points, replacing a corner's value when the point coincides with the corner; without a value-less item corners keep the schema default",
                       "spherical polygon edges are not probed (not exactly representable); tolerance 1e-6 relative"
                      };
-  spec.counters = {"probes_bisected", "listed_points_checked", "unlisted_corners_checked", "corner_overrides_checked", "affine_probes_checked", "kernel_cross_checks"};
+  spec.counters = {"probes_bisected", "listed_points_checked", "unlisted_corners_checked", "corner_overrides_checked", "affine_probes_checked", "kernel_cross_checks", "fan_reference_checks"};
   spec.quick_deadline_s = 240;
   spec.thorough_deadline_s = 1500;
   return driver(argc, argv, spec, [](const std::string &tier)
@@ -359,7 +429,7 @@ int main(int argc, char **argv)
     s[0].name = "surfaces";
     s[0].n = cs.size();
     s[0].run = [](uint64_t i, Ctx &c) { run_case(cs[i], c); if (i % 997 == 13) c.sample(describe(cs[i])); };
-    s[0].bound = std::to_string(cs.size()) + " depth surfaces: 4 polygons (+ a large plate for the affine family) x all sets of <= " + (tier == "thorough" ? "3" : "2") + " additional lattice value points x 3 values each x {min depth, max depth} x {cartesian, spherical}, plus 4 affine functions per point set";
+    s[0].bound = std::to_string(cs.size()) + " depth surfaces: 4 polygons (+ a large plate for the affine family) x all sets of <= " + (tier == "thorough" ? "3" : "2") + " additional lattice value points x 3 values each x {min depth, max depth} x {cartesian, spherical}, plus 4 affine functions per point set; plus the same polygons at 6 scaled / displaced places (0.0025x, 0.025x and 4x the lattice unit, across the date line, high latitude) with <= " + (tier == "thorough" ? "2" : "1") + " value points; rectangles with one interior value point are compared with the closed-form fan interpolation";
     s[0].describe = [](uint64_t i) { return describe(cs[i]); };
     return s;
   });
